@@ -7,4 +7,4 @@ pub mod json;
 pub mod term;
 
 pub use explore::{explore, Limits, Report, Violation};
-pub use int::{choice, note, note_n, oblige, observe, Cond, CostLike, SymInt};
+pub use int::{choice, is_symbolic_run, note, note_n, oblige, observe, Cond, CostLike, SymInt};
